@@ -17,7 +17,7 @@ from ..runner import Failure
 LEVEL = "exploration"
 RULE = (
     "Hypothesis-drawn and systematic small datasets (int/float/bool/string/datetime/categorical columns with nulls; unnamed default, named, non-default int, string and datetime indexes; 1..6 files "
-    "incl. an empty partition, an all-null column in one file, files written in an order that leaves the file statistics unsorted) written with to_parquet into a per-case directory x reader "
+    "incl. an empty partition, an all-null column in one file, files written in an order - reversed or rotated - that leaves the file statistics unsorted) written with to_parquet into a per-case directory x reader "
     "{fsspec, arrow} x calculate_divisions {off,on} x ~45 queries per dataset: round trip, projections (subsets, reordered, Series), filter trees (comparisons incl. !=, isin, isna/notnull, column vs "
     "column, and/or/not up to 2 connectives), user filters= combined with pushed predicates, partition subsets, len (with and without projection/filter), head, index access, arithmetic on top "
     "(fused multi-file reads). Oracle: (1) read == what was written (rows as multiset with index; divisions, when requested, satisfy the C06 predicate); (2) every query after optimize() == the same "
@@ -51,7 +51,7 @@ def dataset_spec(draw=None, variant=0):
             index = {"kind": "dt", "name": "when", "values": list(range(n))}
         cutsets = [[n], [3, n - 3], [2, 0, n - 2], [1, 2, n - 3], [2, 2, 2, n - 6], [1, 1, 1, 1, 1, n - 5]]
         cuts = cutsets[(variant // 2) % len(cutsets)]
-        order = "reversed" if variant % 4 == 3 else "asis"
+        order = "reversed" if variant % 4 == 3 else "rotated" if variant % 4 == 1 else "asis"
         return _no_cat_with_empty_file({"name": "t0", "columns": cols, "rows": rows, "index": index, "cuts": cuts, "order": order})
     from hypothesis import strategies as st
 
@@ -61,7 +61,7 @@ def dataset_spec(draw=None, variant=0):
     k = draw(st.integers(1, min(6, n)))
     pts = sorted(draw(st.lists(st.integers(0, n), min_size=k - 1, max_size=k - 1)))
     spec["cuts"] = [b - a for a, b in zip([0] + pts, pts + [n])]
-    spec["order"] = draw(st.sampled_from(["asis", "asis", "reversed"]))
+    spec["order"] = draw(st.sampled_from(["asis", "asis", "reversed", "rotated"]))
     return _no_cat_with_empty_file(spec)
 
 
@@ -186,6 +186,9 @@ def check(case):
             src = dx.from_map(udfs.iloc_slice_noproj, bounds, pdf=pdf, meta=pdf.iloc[:0])
             if spec.get("order") == "reversed" and len(bounds) > 1:
                 src = src.partitions[list(range(len(bounds)))[::-1]]
+            elif spec.get("order") == "rotated" and len(bounds) > 1:
+                # with >= 3 files a permutation that is not its own inverse
+                src = src.partitions[list(range(1, len(bounds))) + [0]]
             written = src.compute()
             try:
                 src.to_parquet(path)
